@@ -64,6 +64,7 @@ STMTS = [
     'SELECT date, narration FROM #transactions',
     'SELECT account, position, balance WHERE account ~ "Broker"',
     'SELECT 1 AS one, NULL AS nothing, "x" AS s FROM #',
+    "SELECT account, 'a;b' AS semi WHERE narration != 'x; y' AND number > 0",
     'BALANCES',
     'BALANCES AT cost FROM year = 2020',
     'JOURNAL "Assets:Bank"',
@@ -174,7 +175,7 @@ def generate(rng, tier, run):
     named = gen_named_queries(rng, ledger['lastday'])
     for q in named:
         ledger['dirs'].append({'k': 'query', 'date': q['date'], 'name': q['name'], 'text': query_text(q)})
-    pool = rng.sample(STMTS[:17], rng.randint(3, 7)) + rng.sample(STMTS[17:], rng.choice([0, 1, 1, 2]))
+    pool = rng.sample(STMTS[:18], rng.randint(3, 7)) + rng.sample(STMTS[18:], rng.choice([0, 1, 1, 2]))
     # the text of a named query typed as an ordinary statement (must NOT get the directive's close date)
     for q in named:
         if rng.random() < 0.5 and not q.get('dup'):
@@ -232,7 +233,7 @@ def generate(rng, tier, run):
 def generate_cli(rng, tier, run):
     with_errors = rng.random() < 0.5
     ledger = world.gen_ledger(rng, n_txn=rng.randint(1, 5), with_errors=with_errors)
-    stmt = rng.choice(STMTS[:16])
+    stmt = rng.choice(STMTS[:17])
     init = None
     if rng.random() < 0.25:
         init = [rng.choice(['.set boxed true', '.set spaced on', '.set nullvalue NA', '.set unicode yes', '.set expand 1',
